@@ -156,8 +156,9 @@ func checkString(s string) *finding {
 	}
 	// backslash only in front of a plain letter or a newline (continuation), no quotes/heredoc:
 	// the argument COUNT is still defined (content of such words is unspecified)
-	if !strings.ContainsAny(s, "\"") && !strings.Contains(s, "=<<") && backslashesBenign(s) {
-		joined := strings.ReplaceAll(s, "\\\n", "") // continuation joins the lines
+	if joined, ok := resolveBackslashes(s); ok && !strings.ContainsAny(s, "\"") && !strings.Contains(s, "=<<") {
+		// joined: escaped letters and escaped backslashes are ordinary word bytes, a continuation
+		// (an UNESCAPED backslash directly in front of the newline) joins the lines
 		lines := strings.Split(joined, "\n")
 		if len(calls) != len(lines) {
 			return &finding{"continuation-line-boundary", "a backslash-newline continues the line; reading stops at the command's newline", fmt.Sprintf("input %s: %d logical lines but %d calls", q(s), len(lines), len(calls))}
@@ -207,6 +208,39 @@ func checkSplitAgrees(s string, first call) *finding {
 			fmt.Sprintf("input %s: SplitArguments = %q eof=%v err=%q, ReadArguments = %q eof=%v err=%q", q(s), c.Args, c.EOF, c.Err, first.Args, first.EOF, first.Err)}
 	}
 	return nil
+}
+
+// resolveBackslashes rewrites s for the argument-count reference: "\\a" and an escaped backslash
+// become the word byte 'a', a continuation is removed; ok=false when s holds a backslash whose
+// meaning the statement leaves open.
+func resolveBackslashes(s string) (string, bool) {
+	var out []byte
+	for i := 0; i < len(s); i++ {
+		if s[i] != '\\' {
+			out = append(out, s[i])
+			continue
+		}
+		if i+1 >= len(s) {
+			return "", false
+		}
+		switch s[i+1] {
+		case 'a', '\\':
+			out = append(out, 'a')
+			i++
+		case '\n':
+			// continuation in the middle of blanks only: "x \<nl>y" (unambiguous argument count)
+			if i == 0 || (s[i-1] != ' ' && s[i-1] != '\t') {
+				return "", false
+			}
+			if i+2 >= len(s) || s[i+2] == ' ' || s[i+2] == '\t' || s[i+2] == '\n' || s[i+2] == '\\' {
+				return "", false
+			}
+			i++
+		default:
+			return "", false
+		}
+	}
+	return string(out), true
 }
 
 // backslashesBenign: every backslash is followed by 'a' or by a newline that is followed by
@@ -630,7 +664,7 @@ func replay(wj json.RawMessage) (*fw.Violation, error) {
 
 func init() {
 	fw.Register(&fw.Check{ID: "C17", Level: "exploration",
-		Rule: "ALL byte strings of length <= 7 (quick) / <= 9 (thorough) over the alphabet {space, tab, newline, '\"', backslash, '=', '<', 'a', 0xff}: totality on every one (no panic, terminates, reader drained call by call), SplitArguments agreeing with the first ReadArguments call, and no byte >= 0x80 occurring more often in the arguments than in the input (whatever the context: bare, after a backslash, quoted, heredoc); ALL strings of length <= 4 / <= 5 over the blank-like alphabet {space, tab, 'a', CR, VT, FF, NUL, 0xc2, 0x85, 0xa0, 0xe3, 0x80} (these are word bytes); strings without quote/backslash/heredoc additionally against the plain-word reference (per-line blank-separated fields byte for byte, eof flags); strings whose backslashes precede a letter or a continuation newline against the argument-count reference. Plus every argument list of <= 3 arguments from a 14-entry pool rendered in every applicable form (bare, quoted, heredoc) with 4 separators (incl. backslash-newline), followed by a second command; plus InjectArgs mapping on each list; plus every heredoc body of <= 4 (quick) / <= 5 (thorough) symbols over {a, newline, E, O, F, space, 0xff} with marker EOF (bodies ending in empty lines or in a prefix of the marker included). distinct = inputs",
+		Rule: "ALL byte strings of length <= 7 (quick) / <= 9 (thorough) over the alphabet {space, tab, newline, '\"', backslash, '=', '<', 'a', 0xff}: totality on every one (no panic, terminates, reader drained call by call), SplitArguments agreeing with the first ReadArguments call, and no byte >= 0x80 occurring more often in the arguments than in the input (whatever the context: bare, after a backslash, quoted, heredoc); ALL strings of length <= 4 / <= 5 over the blank-like alphabet {space, tab, 'a', CR, VT, FF, NUL, 0xc2, 0x85, 0xa0, 0xe3, 0x80} (these are word bytes); strings without quote/backslash/heredoc additionally against the plain-word reference (per-line blank-separated fields byte for byte, eof flags); strings whose backslashes precede a letter, another backslash (escaped backslash = word byte) or a continuation newline against the argument-count and line-boundary reference. Plus every argument list of <= 3 arguments from a 14-entry pool rendered in every applicable form (bare, quoted, heredoc) with 4 separators (incl. backslash-newline), followed by a second command; plus InjectArgs mapping on each list; plus every heredoc body of <= 4 (quick) / <= 5 (thorough) symbols over {a, newline, E, O, F, space, 0xff} with marker EOF (bodies ending in empty lines or in a prefix of the marker included). distinct = inputs",
 		Run: run, Replay: replay,
 		Assumptions: []string{"length bound as stated; the 'randomly beyond' part is not claimed", "content of words containing a bare backslash is unspecified (only totality and argument count are required)", "an empty heredoc body cannot be rendered by the reference quoting (text must be non-empty)"}})
 }
